@@ -146,6 +146,20 @@ def _call(arg: Any) -> Any:
     return _TASK(arg)
 
 
+def _call_many(args: List[Any]) -> List[Any]:
+    assert _TASK is not None
+    return [_TASK(a) for a in args]
+
+
+class WorkerDied(Exception):
+    """A pool worker disappeared (killed for memory, or crashed the interpreter) while executing the code under test.
+    multiprocessing.Pool replaces such a worker silently and waits for the lost task for ever; this is raised instead."""
+
+
+def _pids(pool: Any) -> frozenset:
+    return frozenset(p.pid for p in getattr(pool, "_pool", []))
+
+
 def pmap(fn: Callable[[Any], Any], items: Sequence[Any], chunk: Optional[int] = None, nproc: Optional[int] = None
          ) -> List[Any]:
     """Deterministic parallel map (results in input order) over a fork pool; `fn` may be a closure."""
@@ -160,7 +174,14 @@ def pmap(fn: Callable[[Any], Any], items: Sequence[Any], chunk: Optional[int] = 
         if chunk is None:
             chunk = max(1, min(2000, len(items) // (n * 8)))
         with ctx.Pool(n, initializer=_worker_init) as pool:
-            return pool.map(_call, items, chunksize=chunk)
+            born = _pids(pool)
+            res = pool.map_async(_call, items, chunksize=chunk)
+            while True:
+                try:
+                    return res.get(timeout=5)
+                except mp.TimeoutError:
+                    if _pids(pool) != born:
+                        raise WorkerDied("a worker process died while executing the code under test") from None
     finally:
         _TASK = None
 
@@ -178,8 +199,27 @@ def pmap_iter(fn: Callable[[Any], Any], items: Iterable[Any], chunk: int = 256, 
     try:
         ctx = mp.get_context("fork")
         with ctx.Pool(n, initializer=_worker_init) as pool:
-            for r in pool.imap(_call, items, chunksize=chunk):
-                yield r
+            born = _pids(pool)
+
+            def grouped() -> Iterator[List[Any]]:
+                src = iter(items)
+                while True:
+                    g = list(itertools.islice(src, chunk))
+                    if not g:
+                        return
+                    yield g
+
+            it = pool.imap(_call_many, grouped(), chunksize=1)  # (chunksize 1: only then imap returns an iterator with a timeout)
+            while True:
+                try:
+                    rs = it.next(timeout=5)
+                except StopIteration:
+                    return
+                except mp.TimeoutError:
+                    if _pids(pool) != born:
+                        raise WorkerDied("a worker process died while executing the code under test") from None
+                    continue
+                yield from rs
     finally:
         _TASK = None
 
